@@ -9,7 +9,7 @@ REPLAY = os.path.join(VERIF, 'replay')
 HAVE = {'C01', 'C02', 'C16', 'C17', 'C18', 'C03', 'C04', 'C05', 'C06', 'C07', 'C08', 'C09', 'C10', 'C11', 'C12', 'C13', 'C14', 'C15', 'C19', 'C20'}
 RIDS = {'C08': ['C08', 'C08Q'], 'C07': ['C07']}     # replay-crate dispatch ids per property (default: the property id)
 # dispatch ids of the always-run bounded stand-in where it is a module of its own (the witness search keeps the property id)
-BRIDS = {'C15': ['C15E'], 'C02': ['C02E', 'C02P'], 'C04': ['C04', 'C04B'], 'C01': ['C01E', 'C01D'], 'C09': ['C09', 'C01E']}
+BRIDS = {'C15': ['C15E'], 'C02': ['C02E', 'C02P'], 'C04': ['C04', 'C04B'], 'C01': ['C01E', 'C01D'], 'C09': ['C09', 'C01E', 'C04']}
 _cache = {}
 
 
@@ -111,7 +111,7 @@ BOUNDED = {
     'C09': dict(what='the REAL EngineState (2 exchanges, 3 instruments, 5 assets, same names on both exchanges) through update_from_account / update_from_market: six sets of 2-5 '
                      'timestamped updates (distinct, tied, repeated values) delivered in every sequence with repetition up to a length bound, streamed or inside full account '
                      'snapshots, orders untracked / in flight / cancel in flight: after every delivery the held value is the delivered update with the greatest timestamp (ties as '
-                     'the guards say), other items untouched; plus (dispatch id C01E, the order-lifecycle enumeration over the real EngineState) order reports of EVERY kind incl. Open reports with nothing left to fill, stale or not: a report older than the held exchange data changes nothing',
+                     'the guards say), other items untouched; plus (dispatch id C01E, the order-lifecycle enumeration over the real EngineState) order reports of EVERY kind incl. Open reports with nothing left to fill, stale or not: a report older than the held exchange data changes nothing; plus (dispatch id C04) the way in: unindexed account messages through the real AccountEventIndexer over maps built by the real generate_execution_instrument_map for every small instrument collection - each message arrives under the index of exactly the asset / instrument it names',
                 bound={'quick': '~320k deliveries + ~1.3M lifecycle events', 'thorough': '~7.2M deliveries + ~15.6M lifecycle events'}),
     'C07': dict(what='three REAL ExecutionManagers (one per exchange; maps built by the real generate_execution_instrument_map over 6 instruments, index != position, a name shared '
                      'by two exchanges) against a scripted ExecutionClient under the paused tokio clock: answers immediately / 1 ms / tau-1 / tau (tie) / tau+1 / late / never, Ok and '
